@@ -332,11 +332,11 @@ func c14Model(f c14Facts, rec c14Stored) c14Verdict {
 		if f.UnknownOrigin {
 			add("unknown-origin", 404)
 		}
-		return finishC14(v, f)
+		return c14Finish(v, f)
 	}
 	if f.UnknownOrigin {
 		add("unknown-origin", 404)
-		return finishC14(v, f)
+		return c14Finish(v, f)
 	}
 	if f.BadSignature {
 		add("bad-signature", 403)
@@ -368,10 +368,10 @@ func c14Model(f c14Facts, rec c14Stored) c14Verdict {
 			}
 		}
 	}
-	return finishC14(v, f)
+	return c14Finish(v, f)
 }
 
-func finishC14(v c14Verdict, f c14Facts) c14Verdict {
+func c14Finish(v c14Verdict, f c14Facts) c14Verdict {
 	if len(v.Defects) == 0 {
 		v.Accept = true
 		v.Allowed[200] = true
